@@ -7,11 +7,10 @@
   A re-casing `s'` of a text `s` is given by
     hcase : s.map asciiLowerChar = s'.map asciiLowerChar
   (same length; position by position the same character, or the same ASCII letter in the other
-  case).  Four kinds of re-casing are NOT harmless in the code (see the findings at the end of the
-  file, each with a kernel-evaluated witness); the theorems exclude them by hypotheses:
-    hapos : the literal sequences `'n'`, `'s`, `'re` — which the lexer matches case-SENSITIVELY
-            where they start a token or follow a number / string / comment — start at the same
-            places in both texts (sufficient; inside a word, `it'S`, the code is case-blind);
+  case).  The LEXER does not see such a re-casing at all (`C15_lex_recase`, no further
+  hypothesis: since the repair D18 the literal sequences `'n'`, `'s`, `'re` are matched up to
+  ASCII case everywhere, see the examples at the end of the file).  Three kinds of re-casing are
+  NOT harmless by design of the language; the parser-level theorems exclude them by hypotheses:
     hstr  : the span of every string literal of `s` holds the same characters in `s'`;
     hsay  : the text taken by a poetic string literal (after a `says`/`say` token up to the next
             `Newline` token) is the same in `s'` (it is a string value; for a `say` that starts a
@@ -47,9 +46,9 @@ open Lexer Parser Recase CharOps Keys Interp
 section
 variable [CharOps] {N : Type} [NumOps N]
 
-/-- **Lexing commutes with re-casing.**  Let `s'` be a re-casing of `s` (shorter than 4 GiB) in
-    which `'n'`, `'s`, `'re` start at the same places.  Both texts lex; the token lists have the
-    same length, and corresponding tokens have the same kind (in particular the same keyword),
+/-- **Lexing commutes with re-casing.**  Let `s'` be ANY re-casing of `s` (shorter than 4 GiB).
+    Both texts lex; the token lists have the same length, and corresponding tokens have the
+    same kind (in particular the same keyword, the same `'s` / `'re` / `'n'` token),
     the same byte offset, the same line/column range, the same number payload, the same error
     message, the same lexer snapshot, and spellings — and text payloads of strings and comments —
     that are re-casings of each other (so their `to_lowercase` images are equal). -/
@@ -57,9 +56,7 @@ theorem C15_lex_recase (laws : AsciiLaws)
     (hparse : ∀ t t' : Str, t.map asciiLowerChar = t'.map asciiLowerChar →
       (NumOps.parse t' : Option N) = NumOps.parse t)
     (kw : List (Str × TK)) (s s' : Str) (hlen : ulen s < 2 ^ 32)
-    (hcase : s.map asciiLowerChar = s'.map asciiLowerChar)
-    (hapos : ∀ k, k < s.length → ∀ lit ∈ [str% "'n'", str% "'s", str% "'re"],
-      lit <+: s.drop k ↔ lit <+: s'.drop k) :
+    (hcase : s.map asciiLowerChar = s'.map asciiLowerChar) :
     ∃ ts ts' : List (Tok N), lexAll kw s = .ok ts ∧ lexAll kw s' = .ok ts' ∧
       ts'.length = ts.length ∧
       ∀ p ∈ ts.zip ts',
@@ -68,8 +65,8 @@ theorem C15_lex_recase (laws : AsciiLaws)
         p.1.spelling.map asciiLowerChar = p.2.spelling.map asciiLowerChar ∧
         lower p.2.spelling = lower p.1.spelling ∧
         p.1.text.map asciiLowerChar = p.2.text.map asciiLowerChar := by
-  have hrca := rca_of_map hcase hapos
-  have hl : ulen s' = ulen s := hrca.rc.ulen
+  have hrca : RC s s' := rc_iff_map.mpr hcase
+  have hl : ulen s' = ulen s := hrca.ulen
   obtain ⟨ts, hts⟩ := c12_total (N := N) kw s hlen
   obtain ⟨ts', hts'⟩ := c12_total (N := N) kw s' (by rw [hl]; exact hlen)
   have hrel := lexAll_rel (N := N) laws (fun t t' h => hparse t t' (rc_iff_map.mp h)) kw hrca
@@ -84,7 +81,7 @@ theorem C15_lex_recase (laws : AsciiLaws)
 
 /-- non-vacuity: the ASCII tables and the integer numbers meet `laws` and `hparse`; the example
     text (keywords, the common variable `my heart`, the proper variable `Tommy Lee`, a string
-    literal, `'s`) and its re-casing meet the hypotheses; the token kinds are those of the
+    literal, `'s` re-cased to `'S`) and its re-casing meet the hypotheses; the token kinds are those of the
     original (kernel evaluation of both lexer runs). -/
 example :
     @AsciiLaws asciiOps
@@ -92,8 +89,6 @@ example :
         numOpsInt.parse t' = numOpsInt.parse t)
     ∧ ulen exText < 2 ^ 32
     ∧ exText.map asciiLowerChar = exTextRecased.map asciiLowerChar
-    ∧ (∀ k, k < exText.length → ∀ lit ∈ [str% "'n'", str% "'s", str% "'re"],
-        lit <+: exText.drop k ↔ lit <+: exTextRecased.drop k)
     ∧ (toksOf exText).map (·.kind) =
         [.put, .number, .into, .commonPrefix, .word, .newline,
          .word, .word, .apostropheS, .stringLit, .newline,
@@ -101,7 +96,7 @@ example :
     ∧ (toksOf exTextRecased).map (·.kind) = (toksOf exText).map (·.kind)
     ∧ (toksOf exTextRecased).map (·.spelling) ≠ (toksOf exText).map (·.spelling) :=
   ⟨asciiLaws_asciiOps, fun t t' h => numOpsInt_parse_rc t t' (rc_iff_map.mpr h), by decide,
-   by decide +kernel, by decide +kernel, by decide +kernel, by decide +kernel, by decide +kernel⟩
+   by decide +kernel, by decide +kernel, by decide +kernel, by decide +kernel⟩
 
 /-- **String literals keep their contents.**  If moreover the span of every string literal of
     `s` holds the same characters in `s'`, corresponding string-literal tokens have the same
@@ -113,14 +108,12 @@ theorem C15_lex_recase_strings (laws : AsciiLaws)
     (hkw : ∀ e ∈ kw, e.2 ≠ .newline ∧ e.2 ≠ .number ∧ e.2 ≠ .stringLit ∧ e.2 ≠ .comment)
     (s s' : Str) (hlen : ulen s < 2 ^ 32)
     (hcase : s.map asciiLowerChar = s'.map asciiLowerChar)
-    (hapos : ∀ k, k < s.length → ∀ lit ∈ [str% "'n'", str% "'s", str% "'re"],
-      lit <+: s.drop k ↔ lit <+: s'.drop k)
     (ts ts' : List (Tok N)) (hlex : lexAll kw s = .ok ts) (hlex' : lexAll kw s' = .ok ts')
     (hstr : ∀ t ∈ ts, t.kind = .stringLit →
       substr s' t.start (t.start + ulen t.spelling) = some t.spelling) :
     ∀ p ∈ ts.zip ts', p.1.kind = .stringLit → p.2.text = p.1.text := by
-  have hrca := rca_of_map hcase hapos
-  have hl : ulen s' = ulen s := hrca.rc.ulen
+  have hrca : RC s s' := rc_iff_map.mpr hcase
+  have hl : ulen s' = ulen s := hrca.ulen
   have hrel := lexAll_rel (N := N) laws (fun t t' h => hparse t t' (rc_iff_map.mp h)) kw hrca
   rw [hlex, hlex'] at hrel
   intro p hp hk
@@ -160,8 +153,6 @@ theorem C15_parse_recase (laws : AsciiLaws)
     (hkw : ∀ e ∈ kw, e.2 ≠ .newline ∧ e.2 ≠ .number ∧ e.2 ≠ .stringLit ∧ e.2 ≠ .comment)
     (s s' : Str) (hlen : ulen s < 2 ^ 32)
     (hcase : s.map asciiLowerChar = s'.map asciiLowerChar)
-    (hapos : ∀ k, k < s.length → ∀ lit ∈ [str% "'n'", str% "'s", str% "'re"],
-      lit <+: s.drop k ↔ lit <+: s'.drop k)
     (ts ts' : List (Tok N)) (hlex : lexAll kw s = .ok ts) (hlex' : lexAll kw s' = .ok ts')
     (hstr : ∀ t ∈ ts, t.kind = .stringLit →
       substr s' t.start (t.start + ulen t.spelling) = some t.spelling)
@@ -178,13 +169,13 @@ theorem C15_parse_recase (laws : AsciiLaws)
     | .fuel, .fuel => True
     | .resource, .resource => True
     | _, _ => False := by
-  have hrca := rca_of_map hcase hapos
+  have hrca : RC s s' := rc_iff_map.mpr hcase
   obtain ⟨hraw, htoks⟩ := toksRel_of_text (N := N) laws
     (fun t t' h => hparse t t' (rc_iff_map.mp h)) hkw hlen hrca hlex hlex' hstr hsay
     (fun i h h' hk => hcap (ts[i], ts'[i]) (by
       rw [← List.getElem_zip (i := i) (h := by simp only [List.length_zip]; omega)]
       exact List.getElem_mem _) hk)
-  have h := parseProgram_rel (N := N) laws kw hlex hlex' hrca.rc.ulen hraw htoks
+  have h := parseProgram_rel (N := N) laws kw hlex hlex' hrca.ulen hraw htoks
   revert h
   cases (parseProgram kw s : Outcome (ParseErr N) (Program N)) <;>
     cases (parseProgram kw s' : Outcome (ParseErr N) (Program N)) <;> exact id
@@ -282,8 +273,6 @@ theorem C15_text_recase_behaviour (laws : AsciiLaws)
     (hkw : ∀ e ∈ kw, e.2 ≠ .newline ∧ e.2 ≠ .number ∧ e.2 ≠ .stringLit ∧ e.2 ≠ .comment)
     (s s' : Str) (hlen : ulen s < 2 ^ 32)
     (hcase : s.map asciiLowerChar = s'.map asciiLowerChar)
-    (hapos : ∀ k, k < s.length → ∀ lit ∈ [str% "'n'", str% "'s", str% "'re"],
-      lit <+: s.drop k ↔ lit <+: s'.drop k)
     (ts ts' : List (Tok N)) (hlex : lexAll kw s = .ok ts) (hlex' : lexAll kw s' = .ok ts')
     (hstr : ∀ t ∈ ts, t.kind = .stringLit →
       substr s' t.start (t.start + ulen t.spelling) = some t.spelling)
@@ -304,7 +293,7 @@ theorem C15_text_recase_behaviour (laws : AsciiLaws)
     | .fuel, .fuel => True
     | .resource, .resource => True
     | _, _ => False := by
-  have h := C15_parse_recase laws hparse kw hkw s s' hlen hcase hapos ts ts' hlex hlex' hstr hsay hcap
+  have h := C15_parse_recase laws hparse kw hkw s s' hlen hcase ts ts' hlex hlex' hstr hsay hcap
   revert h
   cases (parseProgram kw s : Outcome (ParseErr N) (Program N)) <;>
     cases (parseProgram kw s' : Outcome (ParseErr N) (Program N)) <;> try exact id
@@ -321,7 +310,7 @@ example : ∀ fuel : Nat,
   intro fuel
   have h := @C15_text_recase_behaviour asciiOps Int numOpsInt asciiLaws_asciiOps asciiOps_idem
     (fun t t' h => numOpsInt_parse_rc t t' (rc_iff_map.mpr h)) defaultKeywords (by decide +kernel)
-    exText exTextRecased (by decide) (by decide +kernel) (by decide +kernel)
+    exText exTextRecased (by decide) (by decide +kernel)
     (toksOf exText) (toksOf exTextRecased) exText_lexes exTextRecased_lexes (by decide +kernel)
     (sayFixed_decomp (by decide +kernel)) (by decide +kernel)
   rw [exText_parses, exTextRecased_parses] at h
@@ -344,28 +333,44 @@ example :
 
 end
 
-/-! ## Findings: re-casings that DO change the token list or the tree (witnesses)
+/-! ## The repaired lexer sites (D18), and what stays case-sensitive by design
 
-  The model mirrors lexer.rs / parser.rs here (`scan_for_text` uses `strip_prefix`,
-  `find_word_start` uses `starts_with("'n'")`; `tokenize_word` on the other hand tests
-  `'s`/`'S`/`'re`/`'RE`/`'Re`/`'rE`). -/
+  Before the repair `scan_for_text` used `strip_prefix` and `find_word_start` used
+  `starts_with("'n'")`, so `"a"'S` and `x 'N' y` lexed differently from `"a"'s` and `x 'n' y`
+  (findings F-a, F-b of the first version of this file; `tokenize_word` always tested
+  `'s`/`'S`/`'re`/`'RE`/`'Re`/`'rE`).  Now both sites compare up to ASCII case
+  (`Lexer.startsWithIgnoreAsciiCase`); the token keeps the spelling of the source. -/
 
-/-- **F-a** `'s` / `'re` after a string literal (likewise after a number or a comment) is matched
-    case-sensitively: `"a"'s` is a string followed by the `'s` token, in `"a"'S` the apostrophe is
-    dropped and `S` is a word.  (After a word both spellings are the `'s` token.) -/
+/-- **F-a repaired**: `'s` after a string literal (likewise after a number or a comment, likewise
+    `'re`) in either case is the `'s` token, spelled as in the source — as it always was after a
+    word. -/
 example :
     kindsOf (str% "\"a\"'s") = [(.stringLit, str% "\"a\""), (.apostropheS, str% "'s")]
-    ∧ kindsOf (str% "\"a\"'S") = [(.stringLit, str% "\"a\""), (.word, str% "S")]
+    ∧ kindsOf (str% "\"a\"'S") = [(.stringLit, str% "\"a\""), (.apostropheS, str% "'S")]
+    ∧ kindsOf (str% "7'rE") = [(.number, str% "7"), (.apostropheRE, str% "'rE")]
     ∧ kindsOf (str% "it's") = [(.pronoun, str% "it"), (.apostropheS, str% "'s")]
     ∧ kindsOf (str% "it'S") = [(.pronoun, str% "it"), (.apostropheS, str% "'S")] := by
   decide +kernel
 
-/-- **F-b** the separator `'n'` is matched case-sensitively: `x 'N' y` has the word `N` where
-    `x 'n' y` has the `'n'` token. -/
+/-- **F-b repaired**: `'N'` is the separator token `'n'`, spelled as in the source. -/
 example :
     kindsOf (str% "x 'n' y")
       = [(.word, str% "x"), (.apostropheNApostrophe, str% "'n'"), (.word, str% "y")]
-    ∧ kindsOf (str% "x 'N' y") = [(.word, str% "x"), (.word, str% "N"), (.word, str% "y")] := by
+    ∧ kindsOf (str% "x 'N' y")
+      = [(.word, str% "x"), (.apostropheNApostrophe, str% "'N'"), (.word, str% "y")] := by
+  decide +kernel
+
+/-- … and the parser sees them as such: `'N'` separates the arguments of a call, `'S` after a
+    string literal is the comparison `is` (both texts parse; by `C15_parse_recase` to the same
+    tree as their lower-case forms). -/
+example :
+    (@parseProgram Int asciiOps numOpsInt defaultKeywords (str% "Shout F taking 1 'N' 2")).isOk = true
+    ∧ (@parseProgram Int asciiOps numOpsInt defaultKeywords (str% "Shout \"a\"'S 7")).isOk = true := by
+  have h1 := lexes_of_isOk (src := str% "Shout F taking 1 'N' 2") (by decide +kernel)
+  have h2 := lexes_of_isOk (src := str% "Shout \"a\"'S 7") (by decide +kernel)
+  unfold parseProgram
+  rw [@runOn_of_lex Int asciiOps numOpsInt (Program Int) (fun r => r.program) _ _ _ h1,
+    @runOn_of_lex Int asciiOps numOpsInt (Program Int) (fun r => r.program) _ _ _ h2]
   decide +kernel
 
 /-- **F-c** (by design of the language, hence `hcap`) capitalisation decides how words group into
